@@ -92,6 +92,26 @@ class C07Scenario(ChangeScenario):
                     out.append(self.viol(env, 'raw-event-delayed',
                                          f"t={t}: the raw-event handler saw version {p['rv']} delivered at t={dt}",
                                          clause='not-delayed'))
+        # daemons and timers are spawned in the instant their object is seen matching, barrier or not
+        if not latency:
+            spawned = {h['id']: h for h in self.params['handlers'] if h['on'] in ('daemon', 'timer')}
+            first_match: dict[tuple[str, str, str], float] = {}
+            started: dict[tuple[str, str, str], float] = {}
+            for t, k, p in env.obs:
+                if k == 'call' and p['id'] == 'ev' and 'deletionTimestamp' not in (p['raw'].get('metadata') or {}):
+                    labels = (p['raw'].get('metadata') or {}).get('labels') or {}
+                    for hid, h in spawned.items():
+                        if all(labels.get(a) == b for a, b in (h.get('labels') or {}).items()):
+                            first_match.setdefault((p['op'], p['uid'], hid), t)
+                elif k == 'daemon-enter' and p['id'] in spawned:
+                    started.setdefault((p['op'], p['uid'], p['id']), t)
+                elif k == 'call' and p['id'] in spawned:
+                    started.setdefault((p['op'], p['uid'], p['id']), t)
+            for key, tm in first_match.items():
+                ts = started.get(key)
+                if tm < self.horizon - 1 and ts != tm:
+                    out.append(self.viol(env, 'spawn-delayed', f"{spawned[key[2]]['on']} {key[2]}: its object was seen matching at t={tm}, "
+                                                               f"it started at {ts}", clause='not-delayed', what=spawned[key[2]]['on']))
         # every delivered event must have reached the raw-event handler at all
         if not latency and any(h['id'] == 'ev' for h in self.params['handlers']):
             seen = {(p['name'], p['rv']) for _, k, p in env.obs if k == 'call' and p['id'] == 'ev'}
@@ -128,6 +148,15 @@ def scenarios(tier: str) -> tuple[list[C07Scenario], list[C07Scenario]]:
                 grid.append(C07Scenario(handlers=handlers, lifecycle='one_by_one', user=user, settings=settings,
                                         holds=holds, horizon=t0 + 20.0, gap=gap, nf=nf,
                                         delays=False, early_user=False, time_dev=False))
+                if nf == 0 and de > 1.0:
+                    # a foreign label edit arrives while the barrier is up (the echo is still held): the daemon and the timer
+                    # it makes match start right then, the change handlers wait
+                    spawn = handlers + [dict(id='d1', on='delete', script=['ok']),    # so that the finalizer is there already (no extra PATCH)
+                                        dict(id='dm', on='daemon', reaction='obeys', labels={'go': 'yes'}),
+                                        dict(id='tm', on='timer', interval=50.0, script=['ok'], labels={'go': 'yes'})]
+                    grid.append(C07Scenario(handlers=spawn, lifecycle='one_by_one', user=user + [(t0 + 1.0, 'label', 'a', 'go', 'yes')],
+                                            settings=settings, holds=[(t0, t0 + de, 'echo')], horizon=t0 + 20.0, gap=gap, nf=nf, spawn=True,
+                                            delays=False, early_user=False, time_dev=False))
     # timing search on a few representatives: late responses, timers first, user edits at explorer-chosen points
     for nf, lc in itertools.product((0, 1), ('one_by_one', 'asap')):
         first = {0: 'ok', 1: 'ok+status1'}[nf]
